@@ -184,6 +184,11 @@ for _dn, _dk, _dd, _dl in (("nested_list_6000", "list", 6000, "println(\"end\")"
                     "bound": "one program: a %s nested %d deep%s: `garden run` ends without a crash" % (_dk, _dd, ", shown with string_repr" if "string_repr" in _dl else "")})
 
 
+import findings  # noqa: E402
+for _fn, _fi, _fb in findings.C02_RUN:
+    BOUNDED.append({"name": _fn, "kind": "run-file", "props": ["C02"], "n_inputs": 1, "timeout": 60, "input": _fi, "expect": {"py": _RUN_ORACLE}, "bound": _fb})
+
+
 def build(tier):
     u = UnitFile("guards")
     u.raw(common.HEADER)
